@@ -11,6 +11,7 @@ import (
 
 	"github.com/99designs/gqlgen/graphql"
 	"github.com/99designs/gqlgen/graphql/handler/extension"
+	"github.com/99designs/gqlgen/graphql/handler/lru"
 	"github.com/99designs/gqlgen/zzsym"
 )
 
@@ -26,11 +27,13 @@ type c07Req struct {
 // a corpus mixing transports, valid and invalid documents, operation names and Accept headers
 var c07Corpus = []c07Req{
 	{0, 0, 0, 0}, {0, 1, 2, 0}, {0, 5, 1, 0}, {0, 7, 3, 0}, {1, 0, 1, 0}, {1, 2, 2, 0}, {1, 4, 0, 0}, {1, 8, 4, 0},
-	{1, 1, 6, 0}, {2, 0, 2, 0}, {2, 7, 1, 0}, {3, 0, 5, 0}, {3, 15, 0, 0}, {1, 9, 1, 0}, {0, 10, 2, 0},
+	{1, 1, 6, 0}, {2, 0, 2, 0}, {2, 7, 1, 0}, {3, 0, 5, 0}, {3, 28, 0, 0}, {1, 9, 1, 0}, {0, 10, 2, 0},
 	// automatic persisted queries: a registration, and a text sent with another text's hash (must be refused, registered or not)
 	{1, 0, 1, 1}, {1, 5, 1, 2}, {1, 2, 0, 2},
 	// texts that differ only inside a string literal / in where a comment ends (they must not share a cache slot)
 	{1, 11, 0, 0}, {1, 12, 0, 0}, {0, 12, 1, 0}, {1, 13, 0, 0}, {2, 14, 0, 0},
+	// texts that collide under common 32-bit checksums
+	{1, 15, 0, 0}, {1, 16, 0, 0}, {1, 17, 0, 0}, {0, 18, 0, 0}, {1, 19, 0, 0}, {1, 20, 0, 0}, {2, 21, 0, 0}, {1, 22, 0, 0}, {1, 23, 0, 0}, {3, 24, 0, 0},
 }
 
 func c07Build(q c07Req) *http.Request {
@@ -88,7 +91,7 @@ func c07Render(w *hWriter, es *hES) string {
 // configured response headers or none, with a query cache or none.
 func Harness_C07_serverHistory() {
 	rh := hRespHdrs[zzsym.Choice("resphdr", 2)].hdr
-	cache := zzsym.Choice("cache", 2) == 1
+	cache := zzsym.Choice("cache", 3)  // none, a map, the LRU of graphql/handler/lru
 	apq := zzsym.Choice("apq", 2) == 1 // persisted-query registrations are the one permitted memory: no corpus request depends on them
 	mkServer := func(es *hES) *Server {
 		var hdr map[string][]string
@@ -99,8 +102,11 @@ func Harness_C07_serverHistory() {
 			}
 		}
 		srv := hServer(es, hdr)
-		if cache {
+		switch cache {
+		case 1:
 			srv.SetQueryCache(graphql.MapCache[*ast.QueryDocument]{})
+		case 2:
+			srv.SetQueryCache(lru.New[*ast.QueryDocument](8))
 		}
 		if apq {
 			srv.Use(extension.AutomaticPersistedQuery{Cache: &c15Store{m: map[string]string{}}})
